@@ -203,6 +203,18 @@ fn histories(s: &Spec) -> Vec<(&'static str, History)> {
     } else {
         vec![]
     };
+    // the TLV list handed over piecewise in ONE batch: type byte, length, value as separate items
+    // (how the crate's own nested-TLV test builds them) - many more items than TLVs
+    let mut pieces = vec![Val::Addr(s.addr.clone())];
+    for (k, _, blob) in &s.tlvs {
+        pieces.push(Val::U8(*k));
+        pieces.push(Val::U16(blob.len as u16));
+        pieces.push(Val::Bytes(blob.clone()));
+    }
+    let mut extra = extra;
+    if s.tlvs.iter().all(|t| t.2.len <= MAX_PAYLOAD) && (s.tlvs.len() > 7000 || s.tlvs.len() % 4 == 1) {
+        extra.push(("new+one-batch-of-pieces", History { ctor: Ctor::New(vc, fp), ops: vec![Op::Batch(pieces)] }));
+    }
     let mut all = vec![
         ("with_addresses+write_tlv", History { ctor: Ctor::WithAddr(vc, s.tr, s.addr.clone()), ops: a }),
         ("new+write_payload(addresses)+tuples", History { ctor: Ctor::New(vc, fp), ops: b }),
